@@ -50,6 +50,10 @@ OUTCOMES = [
     "ill-typed-default-omitted-accepted", "explicit-equal-to-ill-typed-default-diagnosed",
     "explicit-python-equal-to-default-other-literal", "mixed-shape-own-node-and-call-node", "constructor-default",
     "call-performed-by-checker", "self-typed-method", "unsolved-typevar", "return-inferred-from-body", "call-never-returns",
+    # the generic-classes slice (Calls!LibGen)
+    "inherited-generic-init-diagnosed", "inherited-generic-init-accepted", "generic-class-typevar-solved-per-call",
+    "method-on-constructed-instance-diagnosed", "get-on-constructed-instance", "generic-class-parameter-accepted",
+    "generic-class-parameter-rejected", "protocol-parameter-accepted",
 ]
 _DIAG = {"incompatible_argument": "nia", "incompatible_call": "nic"}
 
@@ -57,6 +61,7 @@ _DIAG = {"incompatible_argument": "nia", "incompatible_call": "nic"}
 
 _PRELUDE = (
     "from typing import Any, Callable, Literal, Union, Optional, NewType, TypeVar, NamedTuple, NoReturn, Annotated\n"
+    "from typing import Generic, Protocol\n"
     "from collections.abc import Sequence, Iterable, Mapping\n"
     "from dataclasses import dataclass, field, InitVar\n"
     "from harness.universe import A, B, Color, N\n"
@@ -66,6 +71,11 @@ _PRELUDE = (
 # purpose) is reported at the def (incompatible_default) / at the dataclass field (incompatible_assignment); they are
 # not call diagnostics and are only tolerated on library lines
 _LIB_DIAG = {"incompatible_default", "incompatible_assignment"}
+
+
+# the user-defined generic classes of Calls!GClasses (rendered by gclasses_source from TLC's data)
+_GCLS = ("GBox", "IntBox", "SmallIntBox", "StrBox", "PairBox", "OwnBox", "NumBox", "ConBox", "DBox", "IntDBox")
+_GMKS = ("gctor", "gctorget", "gmeth", "gcmeth", "gspec")
 
 
 def ann(t: dict) -> str:
@@ -102,6 +112,8 @@ def lit(o: dict) -> str:
         return o["v"]
     if o["c"] in ("ItI", "ItS"):
         return o["c"] + "()"
+    if o["c"] in _GCLS:  # Calls!GI: an instance of a generic class holding one item, written C(item)
+        return f"{o['c']}({lit(o['items'][0])})"
     if o["c"] == "float" and o["v"] == "0.0":  # Calls!F00 (not a scalar of the shared universe)
         return "0.0"
     if o["c"] == "dcfactory":
@@ -171,6 +183,8 @@ def _body_src(fn: dict) -> str:
         return f"return {a[0]}[0] if isinstance({a[0]}, {cls}) and {a[0]} else {a[1]}"
     if k == "firstor":
         return f"return {a[0]}[0] if {a[0]} else {a[1]}"
+    if k == "unboxitem":
+        return f"return {a[0]}.get()"
     if k == "new":
         if fn["mk"] == "new":
             return "return super().__new__(cls)"
@@ -188,6 +202,43 @@ def _ret_src(fn: dict) -> str:
     return ann(r)
 
 
+def gclasses_source(gclasses: list[dict]) -> list[str]:
+    """The user-defined generic classes (Calls!GClasses) and the protocol HasGet.  They come before the functions:
+    `def unbox(b: Box[T])` evaluates its annotations when the def is executed."""
+    out: list[str] = []
+    for k in gclasses:
+        if set(k["meths"]) - {"get", "put", "make"} or k["init"] not in ("own", "dataclass", "inherit"):
+            raise core.MachineryError(f"cannot realise the generic class {k}")
+        bases = [ann({"k": "generic", "c": b["c"], "args": b["args"]}) if b["args"] else b["c"] for b in k["base"]]
+        if k["tps"]:
+            bases.append("Generic[" + ", ".join(k["tps"]) + "]")
+        head = f"class {k['n']}({', '.join(bases)}):" if bases else f"class {k['n']}:"
+        if k["init"] == "dataclass":
+            out.append("@dataclass")
+        out.append(head)
+        body = []
+        if k["init"] == "dataclass":
+            body += [f"    {p['name']}: {ann(p['ann'])}" + (f" = {lit(p['dflt'][0])}" if p["dflt"] else "") for p in k["iparams"]]
+        elif k["init"] == "own":
+            params = ", ".join(f"{p['name']}: {ann(p['ann'])}" + (f" = {lit(p['dflt'][0])}" if p["dflt"] else "")
+                               for p in k["iparams"])
+            store = "self.item = item" if not k["base"] else "super().__init__(item)"
+            body.append(f"    def __init__(self, {params}) -> None: {store}")
+        tp = k["tps"][0] if k["tps"] else None
+        for m in k["meths"]:
+            if m == "get":
+                body.append(f"    def get(self) -> {tp}: return self.item")
+            elif m == "put":
+                body.append(f"    def put(self, x: {tp}) -> None: self.item = x")
+            elif m == "make":
+                body.append(f"    @classmethod\n    def make(cls, x: {tp}) -> \"{k['n']}[{tp}]\": return cls(x)")
+        out.extend(body or ["    pass"])
+    if gclasses:
+        out.append("class HasGet(Protocol[T]):")
+        out.append("    def get(self) -> T: raise NotImplementedError")
+    return out
+
+
 def library_source(libdata: dict) -> str:
     """Python source of the whole library (type variables, helper functions, functions, classes)."""
     out = [_PRELUDE]
@@ -201,11 +252,12 @@ def library_source(libdata: dict) -> str:
     for h in libdata["helpers"]:
         body = "return x" if h["body"] == "param" else f"return {lit(h['o'])}"
         out.append(f"def {h['id']}(x: {ann(h['p'])}) -> {ann(h['r'])}: {body}")
+    out.extend(gclasses_source(libdata.get("gclasses", [])))
     classes: dict[str, list[dict]] = {}
     seen: set[tuple[str, str]] = set()
     for fn in libdata["lib"]:
         key = (fn["cls"], fn["name"])
-        if key in seen:
+        if key in seen or fn["mk"] in _GMKS:
             continue
         seen.add(key)
         if fn["cls"]:
@@ -272,10 +324,24 @@ def call_source(fn: dict, case: dict) -> str:
         "cls": f"{fn['cls']}.{fn['name']}",
         "ctor": fn["cls"],
         "unbound": f"{fn['cls']}.{fn['name']}",
+        "ctorget": fn["cls"],                                          # C(args).get()
+        "ginst": f"{fn['cls']}({_gcanon(fn['cls']) if fn['recv'] == 'ginst' else ''}).{fn['name']}",  # C(<fitting literal>).put(args)
+        "spec": "GBox[int]",                                            # explicit specialisation
     }[fn["recv"]]
     if fn["recv"] == "unbound":  # the method fetched from the class, the receiver given explicitly
         args = ["k0"] + args
+    if fn["recv"] == "ctorget":
+        return f"{callee}({', '.join(args)}).get()"
     return f"{callee}({', '.join(args)})"
+
+
+_GCANON: dict[str, str] = {}
+
+
+def _gcanon(cls: str) -> str:
+    if cls not in _GCANON:
+        raise core.MachineryError(f"no receiver literal known for {cls} (library data not loaded)")
+    return _GCANON[cls]
 
 
 # --------------------------------------------------------------------------- real objects / Values -> terms
@@ -292,6 +358,8 @@ def obj_term(x: Any) -> dict:
         return {"c": "function", "v": x.__name__, "items": []}
     if t.__name__ in _XCLS and t.__module__.startswith("verifmod"):
         return {"c": t.__name__, "v": _XCLS[t.__name__], "items": []}
+    if t.__name__ in _GCLS and t.__module__.startswith("verifmod"):  # Calls!GI: the item the instance holds
+        return {"c": t.__name__, "v": "", "items": [obj_term(x.item)]}
     if t.__name__ == "NT" and t.__module__.startswith("verifmod"):  # the NamedTuple of the library: its fields
         return {"c": "NT", "v": "", "items": [obj_term(e) for e in x]}
     if t is float and x == 0.0:  # Calls!F00
@@ -307,7 +375,7 @@ def _cls_name(typ: Any) -> str:
     name = U.CLASS_NAME.get(typ)
     if name is not None:
         return name
-    if isinstance(typ, type) and typ.__name__ in (*_XCLS, "NT") and typ.__module__.startswith("verifmod"):
+    if isinstance(typ, type) and typ.__name__ in (*_XCLS, "NT", *_GCLS, "HasGet") and typ.__module__.startswith("verifmod"):
         return typ.__name__
     return "other"
 
@@ -325,6 +393,7 @@ def val_term(v: Any) -> dict:
             V.AnySource.generic_argument: "generic_argument",
             V.AnySource.error: "error",
             V.AnySource.inference: "inference",
+            V.AnySource.from_another: "from_another",
         }.get(v.source, "other:" + v.source.name)
         return {"k": "any", "src": src}
     if isinstance(v, V.TypeVarValue):
@@ -355,13 +424,21 @@ def val_term(v: Any) -> dict:
 # --------------------------------------------------------------------------- observing the solver
 
 _interposed = False
-_solver_log: dict[int, dict] = {}
-_node_stack: list[Optional[int]] = []
+_solver_log: dict[tuple, dict] = {}
+_node_stack: list[Optional[tuple]] = []
+
+
+def _node_key(node: Any) -> Optional[tuple]:
+    """Identity of a call node within the realised module: an argument that is itself a call (unbox(DBox(1))) sits on
+    the same line as the call it is passed to."""
+    if node is None or not hasattr(node, "lineno"):
+        return None
+    return (node.lineno, getattr(node, "col_offset", None), getattr(node, "end_col_offset", None))
 
 
 def _interpose() -> None:
     """Record -- without changing -- what resolve_bounds_map returns inside check_call_with_bound_args,
-    keyed by the line of the call node being checked (wrappers live in this process, not in /repo)."""
+    keyed by the position of the call node being checked (wrappers live in this process, not in /repo)."""
     global _interposed
     if _interposed:
         return
@@ -378,7 +455,7 @@ def _interpose() -> None:
 
     def check(self, preprocessed, bound_args, ctx, **kwargs):
         node = getattr(ctx, "node", None)
-        _node_stack.append(getattr(node, "lineno", None))
+        _node_stack.append(_node_key(node))
         try:
             return orig_check(self, preprocessed, bound_args, ctx, **kwargs)
         finally:
@@ -408,10 +485,43 @@ def _execute(func) -> dict:
     return {"raised": False, "o": obj_term(value), "bindfail": False}
 
 
+_modno = 0
+
+
+def _make_registered_module(code: str):
+    """Like pyz.make_module, but the module is in sys.modules WHILE its code runs and while it is checked, as for a
+    module that is really imported: dataclasses looks the module up when it generates __init__ (otherwise the generated
+    function has no __module__), and pyanalyze finds the class of an unannotated `self` through
+    sys.modules[function.__module__] (arg_spec.py:541-564) -- without it `self` of Box.__init__ would be Any and no
+    generic base could be matched."""
+    import sys
+    import types
+
+    global _modno
+    _modno += 1
+    name = f"verifmodc06_{os.getpid()}_{_modno}"
+    mod = types.ModuleType(name)
+    mod.__dict__["__file__"] = name + ".py"
+    sys.modules[name] = mod
+    try:
+        exec(compile(code, name + ".py", "exec", dont_inherit=True), mod.__dict__)
+    except BaseException:
+        del sys.modules[name]
+        raise
+    return mod
+
+
+def _load_gcanon(libdata: dict) -> None:
+    for k, o in zip(libdata.get("gclasses", []), libdata.get("gcanon", [])):
+        _GCANON[k["n"]] = lit(o)
+
+
 def observe_chunk(arg: tuple[dict, list[tuple[int, dict]]]) -> list[dict]:
     libdata, chunk = arg
     _interpose()
     _solver_log.clear()
+    _load_gcanon(libdata)
+    itvs = {f["id"]: tv for f, tv in zip(libdata["lib"], libdata.get("itvs", [f["tvs"] for f in libdata["lib"]]))}
     fns = {f["id"]: f for f in libdata["lib"]}
     lib_src = library_source(libdata)
     lines = [lib_src.rstrip("\n")]
@@ -422,7 +532,16 @@ def observe_chunk(arg: tuple[dict, list[tuple[int, dict]]]) -> list[dict]:
         lines.append(f"    return {call_source(fns[case['fn']], case)}")
         line_of[base + 2 * j + 2] = j
     code = "\n".join(lines) + "\n"
-    mod = pyz.make_module(code)
+    mod = _make_registered_module(code)
+    try:
+        return _observe_in_module(mod, code, chunk, fns, itvs, base, line_of)
+    finally:
+        import sys
+
+        sys.modules.pop(mod.__name__, None)
+
+
+def _observe_in_module(mod, code: str, chunk, fns: dict, itvs: dict, base: int, line_of: dict[int, int]) -> list[dict]:
     fails, _visitor, tree = pyz.check_source(code, module=mod, want_visitor=True, annotate=True)
     counts = [{"nia": 0, "nic": 0} for _ in chunk]
     for f in fails:
@@ -441,7 +560,7 @@ def observe_chunk(arg: tuple[dict, list[tuple[int, dict]]]) -> list[dict]:
         if isinstance(node, ast.FunctionDef) and node.name.startswith("case_"):
             ret = node.body[0]
             assert isinstance(ret, ast.Return) and isinstance(ret.value, ast.Call)
-            inferred[int(node.name[5:])] = (getattr(ret.value, "inferred_value", None), ret.lineno)
+            inferred[int(node.name[5:])] = (getattr(ret.value, "inferred_value", None), _node_key(ret.value))
     out = []
     for j, (tid, case) in enumerate(chunk):
         fn = fns[case["fn"]]
@@ -449,12 +568,14 @@ def observe_chunk(arg: tuple[dict, list[tuple[int, dict]]]) -> list[dict]:
         if val is None:
             raise core.MachineryError(f"no inferred value recorded for {call_source(fn, case)}")
         logged = _solver_log.get(lineno)
+        if fn["mk"] == "gctorget":
+            logged = None  # two calls on one line (C(args).get()): the solution of the first is not observed separately
         sigma = []
         if logged is not None:
-            missing = [n for n in fn["tvs"] if n not in logged]
-            if missing:
-                raise core.MachineryError(f"solver result lacks type variables {missing} for {call_source(fn, case)}")
-            sigma = [val_term(logged[n]) for n in fn["tvs"]]
+            # the type variables of the signature that is called (Calls!ImplTvs); a solution for other variables means a
+            # different signature was called: recorded as solved with the variables the model expects missing -> drift
+            sigma = [val_term(logged[n]) if n in logged else {"k": "other", "text": "no solution recorded"}
+                     for n in itvs[fn["id"]]]
         out.append(
             {"tid": tid, "kind": "call", "fn": case["fn"], "shape": case["shape"], "pos": case["pos"], "kw": case["kw"],
              "nia": counts[j]["nia"], "nic": counts[j]["nic"], "inferred": val_term(val),
@@ -560,6 +681,20 @@ def outcome_classes(fns: dict, o: dict) -> list[str]:
         out.append("default-bound")
     if o["real"]["raised"]:
         out.append("runtime-raises")
+    # --- the generic-classes slice (recorded facts only)
+    if fn["mk"] == "gctor" and not fn["tvs"] and fn["cls"] != "OwnBox":
+        out.append("inherited-generic-init-diagnosed" if diagnosed else "inherited-generic-init-accepted")
+    if fn["mk"] == "gctor" and fn["tvs"] and o["solved"] and not diagnosed:
+        out.append("generic-class-typevar-solved-per-call")
+    if fn["mk"] == "gmeth" and diagnosed:
+        out.append("method-on-constructed-instance-diagnosed")
+    if fn["mk"] == "gctorget" and not diagnosed:
+        out.append("get-on-constructed-instance")
+    if fn["id"] in ("unbox", "first"):
+        if diagnosed:
+            out.append("generic-class-parameter-rejected")
+        else:
+            out.append("protocol-parameter-accepted" if fn["id"] == "first" else "generic-class-parameter-accepted")
     # --- the defaults / parameter kinds / call forms / returns slice (recorded facts only)
     params = [p for p in fn["decl"] if p["name"] not in ("self", "cls")]
     pk = [p for p in params if p["kind"] == "pk"]
@@ -712,6 +847,13 @@ def run(check: core.Check) -> None:
         "the receiver of a `self: T` method counts as an argument (it must belong to the solution of T); NamedTuple "
         "constructor calls whose arguments are all literals are really executed by the checker (allow_call), the inferred "
         "value is then the literal result; a `-> NoReturn` function raises: nothing is judged about its result",
+        "generic classes: the declared parameter type of an inherited __init__ / method is the def's type with the type "
+        "parameters of each base replaced by the arguments the subclass gives it (Calls!RefDecl); an instance belongs to "
+        "C[args] when its class is C or a subclass and the item it holds belongs to C's item type under args (Calls!GMember). "
+        "Each realised module is in sys.modules while it is executed and checked, like an imported module (pyanalyze finds the "
+        "class of an unannotated self through sys.modules). Not in the slice (observed, outside the property as stated or a "
+        "different mechanism): put() on GBox(1) (T inferred Literal[1], so put(2) is rejected), methods on a module-level "
+        "instance ib0 = IntBox(1) (ib0.put('a') is accepted)",
     ]
     # 1. the design: TLC proves the three clauses for every call of the bounded space on the model
     cfg = "Calls.quick.cfg" if quick else "Calls.thorough.cfg"
@@ -783,7 +925,31 @@ def run(check: core.Check) -> None:
         "; model deciding 'this argument is the parameter's default' by equality instead of identity (Calls.sens3, "
         "Bug = default_by_equality) violates InvDiagnosis"
     )
-    cases = cases + new_cases
+    # 2c. the generic-classes slice (Calls!LibGen: constructors of user-defined generic classes and of subclasses that
+    # fix / re-parameterise the base's parameters, methods on constructed instances, classmethod, explicit
+    # specialisation, generic class / protocol as a parameter type): proved on the model and emitted in one run, all
+    # cases replayed in both tiers
+    gres = core.require_ok(core.run_tlc("CallsEmit", "Calls.gen.quick.cfg", timeout=1800), "Calls generic-classes slice")
+    check.add_tlc("exhaustive+emit:Calls.gen.quick.cfg", gres)
+    gen_cases = [c for c in core.emitted_json(gres) if not (isinstance(c, dict) and "lib" in c)]
+    if len(gen_cases) < 300:
+        raise core.MachineryError("the generic-classes slice emitted suspiciously few cases")
+    check.cov["generic_classes_slice_cases"] = len(gen_cases)
+    r = core.run_tlc("Calls", "Calls.sens4.cfg", timeout=900)
+    if r.violated != "InvDiagnosis":
+        raise core.MachineryError(
+            f"sensitivity self-test Calls.sens4.cfg failed: a model that binds self of an inherited constructor without "
+            f"matching the generic bases unexpectedly satisfies InvDiagnosis ({r.error})")
+    r = core.run_tlc("Calls", "Calls.strict3.cfg", timeout=900)
+    if r.violated != "InvDiagnosisStrict":
+        raise core.MachineryError("sensitivity self-test failed: InvDiagnosisStrict unexpectedly holds on the generic-classes slice")
+    check.cov["sensitivity"] += (
+        "; model whose constructor signature of a class without type parameters of its own skips the match of the "
+        "declared self type against the class (Calls.sens4, Bug = ctor_self_unmatched) violates InvDiagnosis; "
+        "InvDiagnosisStrict is violated on the generic-classes slice (Calls.strict3): the deviations classmethod-on-"
+        "specialised-class-keeps-free-typevar / subscripted-generic-class-call-unchecked are real on the model"
+    )
+    cases = cases + new_cases + gen_cases
     check.cov["exhaustive"] = exhaustive
     check.cov["model_cases"] = len(cases)
     check.cov["library_functions"] = len(libdata["lib"])
@@ -794,7 +960,12 @@ def run(check: core.Check) -> None:
         "(b) the defaults / parameter kinds / call forms / returns entries Calls!LibNew (Calls.new.*.cfg: menu "
         "0, False, 0.0, '', None, (), 1, True, 'a', [1], A(); class objects / dict displays where type[A] / a TypedDict is "
         "declared; shapes plain, star, mixed f(a, *(b,), **{..}), mixedk f(*(a,), k=b); quick <= 2 arguments with every "
-        "<= 1-argument call and a seeded sample of 1000 two-argument calls replayed, thorough <= 3 arguments, all replayed)"
+        "<= 1-argument call and a seeded sample of 1000 two-argument calls replayed, thorough <= 3 arguments, all replayed); "
+        "(c) user-defined generic classes Calls!GClasses / LibGen (Calls.gen.quick.cfg, both tiers, all replayed): GBox(Generic[T]) "
+        "with __init__/get/put/classmethod make, IntBox(GBox[int]), SmallIntBox(IntBox), StrBox(GBox[str]), "
+        "PairBox(GBox[tuple[KT, VT]], Generic[KT, VT]), OwnBox (own __init__), NumBox (bound float), ConBox (constrained), "
+        "dataclass DBox / IntDBox; calls C(x), C(x).get(), C(<fit>).put(x), C.make(x), GBox[int](x), unbox(b: GBox[T]), "
+        "first(b: HasGet[T]) over 1 / True / 'a' / 1.5 / None (tuples, constructed instances where declared), plain and star"
     )
     counts = judge(check, libdata, cases, "tlc-exhaustive")
     check.cov["verdict_counts"] = counts
@@ -811,7 +982,7 @@ def run(check: core.Check) -> None:
     # (the three-argument functions are only in the thorough tier's exhaustive set)
     optional = {"star-params-merged-diagnostic"} if quick else set()
     missing = [k for k, n in check.cov["outcome_classes"].items() if n == 0 and k not in optional]
-    if missing:
+    if missing and not check.violations:  # (a run that found violations is not vacuous; its paths may differ)
         raise core.MachineryError(f"vacuity: no real observation went through {missing}")
 
 
